@@ -4,4 +4,4 @@
         //@rule n=* `self\.src\[(\w+)\.\.\]\.starts_with\(([^()]*(?:\([^()]*\))?[^()]*)\)` => `self.src.starts_with_at(\1, \2)`
         //@rule n=* `&?self\.src\[([^\[\]]+?)\.\.([^\[\]]+?)\]` => `self.src.slice(\1, \2)`
         //@rule n=* `\bstr::parse::<u64>\((\w+)\)` => `parse_u64(&\1)`
-        //@rule n=* `\bassert_eq!\(([^;]*), ([^;]*)\);` => `assert(\1 == \2);`
+        //@rule n=* `\bassert_eq!\(([^;]*), ([^;]*)\);` => `{ let assert_cond_ = \1 == \2; assert(assert_cond_); }`
